@@ -21,5 +21,10 @@ Lemma nonvacuous :
         Some (63, false, []); Some (63, false, []); None; Some (63, false, []); Some (63, false, []);
         Some (2, false, []); None; Some (1, false, []); Some (0, false, [])]
   /\ fst (final_state 65 6 (init_m 65 64) (firstn 13 (nv_ops 64))) = [18446744073709551614; 1]%N
-  /\ fst (final_state 65 6 (init_m 65 64) (firstn 21 (nv_ops 64))) = [2; 0]%N.
+  /\ fst (final_state 65 6 (init_m 65 64) (firstn 21 (nv_ops 64))) = [2; 0]%N
+  /\ map (option_map (fun r => (o_string (fst r), o_count (fst r), o_all (fst r), o_none (fst r), o_ullong (fst r))))
+         (run_m 0 8 (init_m 0 8) [OSetAll; OSet 0 true; OStr [49]%N 0 18446744073709551615 48 49;
+                                  OStr [50]%N 0 18446744073709551615 48 49; ONot; OTest 0])
+     = [Some ([], 0, true, true, Some 0%N); None; Some ([], 0, true, true, Some 0%N); None;
+        Some ([], 0, true, true, Some 0%N); None].
 Proof. vm_compute. repeat split; reflexivity. Qed.
